@@ -177,7 +177,7 @@ var (
 )
 
 func Const(c constant.Value, t types.Type) *Term { return &Term{Op: "const", C: c, T: t} }
-func Nil(t types.Type) *Term                    { return &Term{Op: "const", C: nil, T: t} }
+func Nil(t types.Type) *Term                     { return &Term{Op: "const", C: nil, T: t} }
 func Int(v int64) *Term {
 	return &Term{Op: "const", C: constant.MakeInt64(v), T: types.Typ[types.Int]}
 }
@@ -188,9 +188,9 @@ func Bool(b bool) *Term {
 	return False
 }
 func Atom(name string, t types.Type) *Term { return &Term{Op: "atom", Name: name, T: t} }
-func FnTerm(fn *ssa.Function) *Term         { return &Term{Op: "fn", Fn: fn, T: fn.Signature} }
-func Ptr(o *Object, p Path) *Term           { return &Term{Op: "ptr", Obj: o, Path: p} }
-func Tuple(args ...*Term) *Term             { return &Term{Op: "tuple", Args: args} }
+func FnTerm(fn *ssa.Function) *Term        { return &Term{Op: "fn", Fn: fn, T: fn.Signature} }
+func Ptr(o *Object, p Path) *Term          { return &Term{Op: "ptr", Obj: o, Path: p} }
+func Tuple(args ...*Term) *Term            { return &Term{Op: "tuple", Args: args} }
 func Call(name string, t types.Type, args ...*Term) *Term {
 	return &Term{Op: "call", Name: name, Args: args, T: t}
 }
